@@ -1,6 +1,7 @@
 package checks
 
 import (
+	"io"
 	"bytes"
 	"context"
 	"encoding/json"
@@ -200,9 +201,40 @@ func c17Image() (*sqImage, *treeSpec, error) {
 	return c17Img.img, c17Img.tree, c17Img.err
 }
 
+// c17Image2: uncompressed data blocks (a block that is stored as it is can be handed out without a copy), two files of
+// several blocks each, and two directories of 140 entries so that the directory and inode tables span several metadata
+// blocks of different sizes.
+var c17Img2 struct {
+	once sync.Once
+	img  *sqImage
+	tree *treeSpec
+	err  error
+}
+
+func c17Image2() (*sqImage, *treeSpec, error) {
+	c17Img2.once.Do(func() {
+		t := &treeSpec{Dirs: []string{"da", "db"}, Files: map[string][]byte{
+			"r1": randomBytes(171, 3*4096+500), "r2": randomBytes(172, 2*4096+77)}}
+		for i := 0; i < 140; i++ {
+			t.Files[fmt.Sprintf("da/file-%03d-%s", i, strings.Repeat("a", 8+i%23))] = nil
+			t.Files[fmt.Sprintf("db/f%03d-%s", i, strings.Repeat("b", 17))] = nil
+		}
+		t.Files["da/file-299-last"] = sqContent("c17-da", 40)
+		t.Files["db/zz-last"] = sqContent("c17-db", 50)
+		c17Img2.tree = t
+		c17Img2.img, c17Img2.err = buildSquash(t, squashfs.FinalizeOptions{Compression: &squashfs.CompressorGzip{CompressionLevel: 9}, NoCompressData: true}, 4096, 0)
+	})
+	return c17Img2.img, c17Img2.tree, c17Img2.err
+}
+
 func fsHarness(name string, cache int, files [][]string, resize []int) c17Harness {
-	return c17Harness{Name: name, Desc: fmt.Sprintf("squashfs readers cache=%d files=%v resize=%v", cache, files, resize), Make: func() *c17Instance {
-		img, tree, err := c17Image()
+	return fsHarnessOn(name, cache, files, resize, 0, c17Image)
+}
+
+// fsHarnessOn: chunk > 0 makes every reader open its own handle and Read in pieces of that many bytes.
+func fsHarnessOn(name string, cache int, files [][]string, resize []int, chunk int, image func() (*sqImage, *treeSpec, error)) c17Harness {
+	return c17Harness{Name: name, Desc: fmt.Sprintf("squashfs readers cache=%d files=%v resize=%v chunk=%d", cache, files, resize, chunk), Make: func() *c17Instance {
+		img, tree, err := image()
 		inst := &c17Instance{}
 		if err != nil {
 			inst.check = func(*sched.Exec) (string, string) { return "fs|infra", err.Error() }
@@ -210,6 +242,7 @@ func fsHarness(name string, cache int, files [][]string, resize []int) c17Harnes
 		}
 		dev := img.Dev.Clone()
 		dev.OnRead = func(int64, int) { sched.Point() }
+		dev.OnReadDone = func(int64, int) { sched.Point() }
 		fs, oerr := squashfs.Read(be(dev, true), img.Size, 0, img.Blocksize)
 		if oerr != nil {
 			inst.check = func(*sched.Exec) (string, string) { return "fs|infra", oerr.Error() }
@@ -228,6 +261,30 @@ func fsHarness(name string, cache int, files [][]string, resize []int) c17Harnes
 			got[ti] = map[string][]byte{}
 			inst.bodies = append(inst.bodies, func() {
 				for _, p := range fl {
+					if chunk > 0 {
+						f, e := fs.OpenFile(p, os.O_RDONLY)
+						if e != nil {
+							errs[ti] = fmt.Errorf("OpenFile(%s): %w", p, e)
+							return
+						}
+						var b []byte
+						buf := make([]byte, chunk)
+						for {
+							k, e := f.Read(buf)
+							b = append(b, buf[:k]...)
+							sched.Point() // between two calls of the reader's own loop
+							if e == io.EOF {
+								break
+							}
+							if e != nil || k == 0 {
+								errs[ti] = fmt.Errorf("Read(%s): %d, %v", p, k, e)
+								return
+							}
+						}
+						f.Close()
+						got[ti][p] = b
+						continue
+					}
 					b, e := fs.ReadFile(p)
 					if e != nil {
 						errs[ti] = fmt.Errorf("ReadFile(%s): %w", p, e)
@@ -309,6 +366,13 @@ func c17Harnesses(quick bool) []c17Harness {
 		if cache >= 1 {
 			hs = append(hs, fsHarness(fmt.Sprintf("fs/resize/cache%d", cache), cache, [][]string{{"f1"}, {"big"}}, []int{0, 3}))
 		}
+		// uncompressed multi-block files read in pieces through own handles; directories in different metadata blocks
+		if !quick || cache == 1 || cache == -1 {
+			hs = append(hs, fsHarnessOn(fmt.Sprintf("fs/uncompressed-chunked/cache%d", cache), cache, [][]string{{"r1"}, {"r2"}}, nil, 1500, c17Image2))
+		}
+		if cache == -1 || (!quick && cache == 2) {
+			hs = append(hs, fsHarnessOn(fmt.Sprintf("fs/two-directories/cache%d", cache), cache, [][]string{{"da/file-299-last"}, {"db/zz-last"}}, nil, 0, c17Image2))
+		}
 	}
 	return hs
 }
@@ -323,6 +387,11 @@ func C17(r *ev.Run) {
 	outcomes := map[string]int64{}
 	var per []map[string]any
 	exhaustive := true
+	// one P during the exploration: the controlled scheduler runs one thread at a time anyway, and per-P structures of
+	// the runtime (sync.Pool's private slots) then behave the same in every execution - a buffer one thread returns to
+	// a pool is the buffer the next thread gets
+	prevProcs := runtime.GOMAXPROCS(1)
+	defer runtime.GOMAXPROCS(prevProcs)
 	for _, h := range c17Harnesses(r.Quick()) {
 		if r.OutOfTime() {
 			exhaustive = false
@@ -331,6 +400,9 @@ func C17(r *ev.Run) {
 		b := bound
 		if strings.HasPrefix(h.Name, "fs/three") || strings.HasPrefix(h.Name, "fs/resize") {
 			b = bound - 1
+		}
+		if strings.HasPrefix(h.Name, "fs/two-directories") {
+			b = 1 // a path lookup touches every entry of the directory: ~1000 scheduling points per execution
 		}
 		e := &sched.Explorer{Bound: b, MaxSteps: 20000, Stop: r.OutOfTime}
 		var cur *c17Instance
